@@ -112,15 +112,15 @@ func (u *ckUniverse) writeLog(dataDir string) error {
 
 // env is one in-process server.
 type env struct {
-	cmd   *test.Command   // the coordinator (primary translate store); the commands talk to it
+	cmd   *test.Command // the coordinator (primary translate store); the commands talk to it
 	nodes test.Cluster
-	tf   *pilosa.TranslateFile
-	ck   *ckUniverse
-	host string
-	dir  string // scratch for csv files
+	tf    *pilosa.TranslateFile
+	ck    *ckUniverse
+	host  string
+	dir   string // scratch for csv files
 }
 
-func startEnv(tb testing.TB, seed int64, slots, nodes int) (*env, error) {
+func startEnv(tb testing.TB, seed int64, slots, nodes, replicas int) (*env, error) {
 	var cl test.Cluster
 	if nodes <= 1 {
 		m := test.NewCommandNode(true)
@@ -137,6 +137,9 @@ func startEnv(tb testing.TB, seed int64, slots, nodes int) (*env, error) {
 	for i, m := range cl {
 		m.Config.Metric.Diagnostics = false
 		m.Config.Translation.MapSize = 512 << 20
+		if nodes > 1 && replicas > 1 {
+			m.Config.Cluster.ReplicaN = replicas
+		}
 		// The data directory goes to memory-backed storage when there is one: creating an
 		// index or a field syncs several files, which dominates the run on a loaded disk,
 		// and the property is not about durability.
@@ -229,7 +232,7 @@ func (e *env) importBits(index, field string, rowKeyed, colKeyed bool, bits []cb
 	if clear {
 		opts = append(opts, pilosa.OptImportOptionsClear(true))
 	}
-	if rowKeyed || colKeyed {
+	if len(e.nodes) == 1 && (rowKeyed || colKeyed) {
 		req := &pilosa.ImportRequest{Index: index, Field: field}
 		for _, b := range bits {
 			if rowKeyed {
@@ -245,6 +248,40 @@ func (e *env) importBits(index, field string, rowKeyed, colKeyed bool, bits []cb
 		}
 		return e.cmd.API.Import(ctx, req, opts...)
 	}
+	// On a cluster the source is written the way the wire protocol delivers an import: keys
+	// are translated at the primary store, and every shard's bits are handed, as ids, to
+	// EVERY node that owns the shard. The fan-out of the code under test is not used here, so
+	// the source is complete on all replicas whatever the import path does.
+	if rowKeyed || colKeyed {
+		opts = append(opts, pilosa.OptImportOptionsIgnoreKeyCheck(true))
+		bits = append([]cbit{}, bits...)
+		if rowKeyed {
+			keys := make([]string, len(bits))
+			for i, b := range bits {
+				keys[i] = b.rowKey
+			}
+			ids, err := e.tf.TranslateRowsToUint64(index, field, keys)
+			if err != nil {
+				return err
+			}
+			for i := range bits {
+				bits[i].rowID = ids[i]
+			}
+		}
+		if colKeyed {
+			keys := make([]string, len(bits))
+			for i, b := range bits {
+				keys[i] = b.colKey
+			}
+			ids, err := e.tf.TranslateColumnsToUint64(index, keys)
+			if err != nil {
+				return err
+			}
+			for i := range bits {
+				bits[i].colID = ids[i]
+			}
+		}
+	}
 	byShard := map[uint64]*pilosa.ImportRequest{}
 	for _, b := range bits {
 		s := b.colID / sw
@@ -257,23 +294,76 @@ func (e *env) importBits(index, field string, rowKeyed, colKeyed bool, bits []cb
 		r.ColumnIDs = append(r.ColumnIDs, b.colID)
 	}
 	for _, r := range byShard {
-		owner := e.cmd
-		if len(e.nodes) > 1 {
-			ns, err := e.cmd.API.ShardNodes(ctx, index, r.Shard)
-			if err != nil || len(ns) == 0 {
-				return fmt.Errorf("shard nodes: %v", err)
-			}
-			for _, m := range e.nodes {
-				if m.API.Node().ID == ns[0].ID {
-					owner = m
-				}
-			}
-		}
-		if err := owner.API.Import(ctx, r, opts...); err != nil {
+		owners, err := e.owners(index, r.Shard)
+		if err != nil {
 			return err
+		}
+		for _, owner := range owners {
+			cp := *r
+			cp.RowIDs = append([]uint64{}, r.RowIDs...)
+			cp.ColumnIDs = append([]uint64{}, r.ColumnIDs...)
+			if err := owner.API.Import(ctx, &cp, opts...); err != nil {
+				return err
+			}
 		}
 	}
 	return nil
+}
+
+// ownersExportAgree exports every shard of a field at every node that owns it
+// (API.ExportCSV serves a node's own fragment) and compares the owners' records.
+func (e *env) ownersExportAgree(index, field string) (string, error) {
+	if len(e.nodes) == 1 {
+		return "", nil
+	}
+	f := e.cmd.Server.Holder().Field(index, field)
+	if f == nil {
+		return "", fmt.Errorf("field %s/%s not found", index, field)
+	}
+	for _, shard := range f.AvailableShards().Slice() {
+		owners, err := e.owners(index, shard)
+		if err != nil {
+			return "", err
+		}
+		var first records
+		for i, o := range owners {
+			var buf bytes.Buffer
+			if err := o.API.ExportCSV(context.Background(), index, field, shard, &buf); err != nil && err != pilosa.ErrFragmentNotFound {
+				return "", fmt.Errorf("ExportCSV of shard %d at %s: %v", shard, o.API.Node().ID, err)
+			}
+			recs, err := parseCSV(buf.Bytes())
+			if err != nil {
+				return "", err
+			}
+			if i == 0 {
+				first = recs
+			} else if m, x := recs.diff(first); len(m)+len(x) > 0 {
+				return fmt.Sprintf("shard %d: node %s exports %d records, node %s %d: missing %s extra %s", shard,
+					o.API.Node().ID, len(recs), owners[0].API.Node().ID, len(first), fmtPairs(m), fmtPairs(x)), nil
+			}
+		}
+	}
+	return "", nil
+}
+
+// owners lists the nodes that own a shard of an index.
+func (e *env) owners(index string, shard uint64) ([]*test.Command, error) {
+	if len(e.nodes) == 1 {
+		return []*test.Command{e.cmd}, nil
+	}
+	ns, err := e.cmd.API.ShardNodes(context.Background(), index, shard)
+	if err != nil || len(ns) == 0 {
+		return nil, fmt.Errorf("shard nodes: %v", err)
+	}
+	var out []*test.Command
+	for _, n := range ns {
+		for _, m := range e.nodes {
+			if m.API.Node().ID == n.ID {
+				out = append(out, m)
+			}
+		}
+	}
+	return out, nil
 }
 
 // settle waits until every node's translate store has caught up with the primary's
@@ -366,9 +456,10 @@ func fmtPairs(p [][2]string) string {
 
 // fieldState is what a field holds, read without the commands under test.
 type fieldState struct {
-	bits    records
-	rowKeys []string // keyed field: the keys the field's translation knows, by id 1..n
-	problem string   // disagreement between two read paths
+	bits     records
+	rowKeys  []string // keyed field: the keys the field's translation knows, by id 1..n
+	problem  string   // disagreement between two read paths
+	replicas string   // an owner of a shard that does not hold all of the shard's bits
 }
 
 // readField reads every bit of a field: the row list through the Rows() query, every row
@@ -437,12 +528,15 @@ func (e *env) readField(index, field string, rowKeyed, colKeyed bool, probe []ui
 	byRow := map[uint64][]string{}
 	for i, id := range ids {
 		seen := map[uint64]bool{}
-		for _, f := range fs { // every node holds its own shards of the row
+		local := make([]map[uint64][]uint64, len(fs)) // node -> shard -> columns it holds itself
+		for n, f := range fs {                        // every node holds its own shards of the row
 			row, err := f.Row(id)
 			if err != nil {
 				return nil, err
 			}
+			local[n] = map[uint64][]uint64{}
 			for _, c := range row.Columns() {
+				local[n][c/sw] = append(local[n][c/sw], c)
 				if seen[c] {
 					continue
 				}
@@ -453,6 +547,29 @@ func (e *env) readField(index, field string, rowKeyed, colKeyed bool, probe []ui
 				}
 				byRow[id] = append(byRow[id], cs)
 				st.bits.add(names[i], cs)
+			}
+		}
+		// every owner of a shard must hold, in its own fragment, all the bits of the row in
+		// that shard (a replica an import skipped is seen here whichever replica a query or
+		// an export happens to ask)
+		if len(fs) > 1 && st.replicas == "" {
+			all := map[uint64]int{}
+			for c := range seen {
+				all[c/sw]++
+			}
+			for shard, n := range all {
+				owners, err := e.owners(index, shard)
+				if err != nil {
+					return nil, err
+				}
+				for _, o := range owners {
+					for k, m := range e.nodes {
+						if m == o && len(local[k][shard]) != n {
+							st.replicas = fmt.Sprintf("row %s shard %d: node %s (an owner of the shard) holds %d of the %d bits: %v",
+								names[i], shard, m.API.Node().ID, len(local[k][shard]), n, local[k][shard])
+						}
+					}
+				}
 			}
 		}
 	}
